@@ -378,3 +378,23 @@ func NamedChan() string {
 	spare.put(c)
 	return fmt.Sprint(n, len(spare), cap(spare), len(c))
 }
+
+// ---- an anonymous struct variable that embeds its lock ------------------------------
+
+var memo = struct {
+	sync.RWMutex
+	m map[int]int
+}{m: map[int]int{}}
+
+func Memo(k int) int {
+	memo.RLock()
+	v, ok := memo.m[k]
+	memo.RUnlock()
+	if ok {
+		return v
+	}
+	memo.Lock()
+	defer memo.Unlock()
+	memo.m[k] = k * k
+	return k * k
+}
